@@ -106,8 +106,8 @@ Theorem C12_semgrep_reader : forall doc,
   semgrep_reader doc = if readable_semgrep doc then Some (semgrep_spec doc) else None.
 Proof. exact semgrep_reader_exact. Qed.
 Print Assumptions C12_semgrep_reader.
-Theorem C12_codeql_reader : forall doc,
-  codeql_reader doc = if readable_codeql doc then Some (codeql_spec doc) else None.
+Theorem C12_codeql_reader : forall scd doc,      (* scd: what a region without startColumn starts at (table codeql_start_column) *)
+  codeql_reader scd doc = if readable_codeql scd doc then Some (codeql_spec scd doc) else None.
 Proof. exact codeql_reader_exact. Qed.
 Print Assumptions C12_codeql_reader.
 Theorem C12_dd_reader : forall doc, dd_reader doc = if readable_dd doc then Some (dd_spec doc) else None.
@@ -116,14 +116,14 @@ Print Assumptions C12_dd_reader.
 (** Non-vacuity: a readable two-location SARIF document, one with an unreadable location, and the DefectDojo analogue. *)
 Example C12_sarif_example :
   readable_semgrep w_sarif = true /\ length (semgrep_spec w_sarif) = 2 /\
-  readable_codeql w_sarif = true /\ length (codeql_spec w_sarif) = 2 /\
+  readable_codeql codeql_start_column w_sarif = true /\ length (codeql_spec codeql_start_column w_sarif) = 2 /\
   readable_semgrep w_sarif_bad = false /\ semgrep_reader w_sarif_bad = None /\
   readable_dd w_dd = true /\ length (dd_spec w_dd) = 1.
 Proof. vm_compute. repeat split; reflexivity. Qed.
 (** foreign runs next to CodeQL runs do not disturb the CodeQL findings *)
-Theorem C12_codeql_foreign_runs : forall runs1 runs2,
-  codeql_spec (JObj [(s_runs, JArr (runs1 ++ runs2))]) =
-  codeql_spec (JObj [(s_runs, JArr runs1)]) ++ codeql_spec (JObj [(s_runs, JArr runs2)]).
+Theorem C12_codeql_foreign_runs : forall scd runs1 runs2,
+  codeql_spec scd (JObj [(s_runs, JArr (runs1 ++ runs2))]) =
+  codeql_spec scd (JObj [(s_runs, JArr runs1)]) ++ codeql_spec scd (JObj [(s_runs, JArr runs2)]).
 Proof. exact codeql_spec_app. Qed.
 Print Assumptions C12_codeql_foreign_runs.
 
